@@ -4,9 +4,10 @@
                 dominant definition, (S4) spec_dispatch_among is the one outcome allowed by outcome_ok;
                 reader-level characterisation of spec_dispatch and spec_next
      SpecTuples (S6) all_classes, tuples, spec_flag
+     SpecPresent (P1-P4) extensionality in anc, presentations of one graph, ids seen through proj
      SpecPerm   (S5) independence from the order of the class catalog and of the definitions
    No axioms; stdlib only. *)
-From Y2 Require Export Proofs.SpecAnc Proofs.SpecCore Proofs.SpecTuples Proofs.SpecPerm.
+From Y2 Require Export Proofs.SpecAnc Proofs.SpecCore Proofs.SpecTuples Proofs.SpecPresent Proofs.SpecPerm.
 
 Print Assumptions ancb_correct.
 Print Assumptions spec_dispatch_among_ok.
@@ -17,3 +18,12 @@ Print Assumptions spec_flag_correct.
 Print Assumptions tuples_correct.
 Print Assumptions spec_dispatch_perm.
 Print Assumptions spec_next_perm.
+Print Assumptions anc_of_presentation.
+Print Assumptions spec_dispatch_anc_ext.
+Print Assumptions spec_next_anc_ext.
+Print Assumptions legal_anc_ext.
+Print Assumptions spec_dispatch_presentations.
+Print Assumptions spec_next_presentations.
+Print Assumptions class_of_proj.
+Print Assumptions spec_rtti_flavour_irrelevant.
+Print Assumptions spec_rtti_flavour_irrelevant_methods.
